@@ -124,6 +124,7 @@ type World struct {
 	panicked bool
 	unconf  map[[2]uintptr]bool
 	pending []Step
+	selfProbes int
 	outs    map[int]bool
 	touched bool
 	// Repair makes the world continue after a failure (resync + rebuild).
